@@ -1,6 +1,31 @@
 """C07 — TensorFrame row selection is coherent across all stypes and the target."""
 from __future__ import annotations
 
+# Every raise / assert / early return / special-case branch / dtype cast on the selection path of the anchored code
+# (tensor_frame.py __getitem__/_apply/num_rows, multi_tensor.py select/_slice/narrow/index_select/_normalize_index), the
+# generator stream that reaches it and the oracle key that notices when it is removed, loosened or defaulted.
+ERROR_PATHS = [
+    ("__getitem__: int -> [int] (keeps the row axis)", "index kind int incl. -n, n-1, n, -n-1 (boundary stream)", "wrong-len:*, no-raise:int, raises:*:int"),
+    ("__getitem__: dict-valued feature: every entry indexed", "frames with text_tokenized", "incoherent-rows:*dict*, wrong-rows:*"),
+    ("__getitem__: explicit _num_rows recomputed on a (n, 1) dummy (bounds checked)", "explicit num_rows, feature-less frames, "
+     "stepped slices on them", "wrong-len:*, no-raise:featureless, props-wrong"),
+    ("_apply: y indexed with the same index; assert on its type", "frames with float / long y", "incoherent-rows (y), wrong-rows"),
+    ("num_rows: explicit / 0 when empty / first feature / first entry of a dict", "all frames; empty frame stream", "props-wrong, empty-frame-len"),
+    ("select: int -> _single_index_select; IndexError out of range after wrapping", "int indices at and beyond both ends", "no-raise:int, raises:*:int"),
+    ("select: slice -> _slice: step <= 0 -> ValueError; step > 1 -> index tensor; else clamp + narrow", "slices with steps "
+     "None/1/2/3/0/-1/-2, overshooting / inverted / negative bounds", "no-raise:slice, wrong-len:*:slice, raises:*:slice"),
+    ("narrow: start == 0 and covers everything -> self; length <= 0 -> _empty; else _row_narrow", "[0:n], [:n+1], [a:a], [n:], boundary stream",
+     "wrong-rows:*, wrong-len:*, unreadable:*"),
+    ("select: list / range -> torch.tensor(index, dtype=long) (a range enumerates its integers, negatives wrap)",
+     "lists, ranges incl. through zero and decreasing, empty", "wrong-rows:*:range|list, incoherent-rows:*"),
+    ("select: 1-D tensor -> index_select; bool -> nonzero with assert numel == size; long/int32 -> wrap negatives ON A CLONE; "
+     "IndexError when out of range", "tensors int64/int32, strided, masks of length n-1/n/n+1, single True, shared index objects",
+     "index-argument-modified, no-raise:tensor|mask, raises:*, wrong-rows:*"),
+    ("index_select on an empty index -> _empty(dim)", "empty list / tensor / all-False mask, chains through empty frames", "wrong-len:*, unreadable:*"),
+    ("torch dense indexing of features and y (IndexError / ValueError of torch itself)", "same streams; extra: primitive check", "primitive:torch-index, raises:*, no-raise:*"),
+    ("not reachable from a frame: _normalize_dim errors, 2-D index tensors, assert index.dim() == 1", "outside the quantifier", "-"),
+]
+
 # Clause-by-clause coverage of the property statement (properties.jsonl C07): oracle keys that judge the clause and
 # generator streams / drawn forms that exercise it.  stats() counts every form; sanity() fails closed when one is 0.
 CLAUSES = [
@@ -73,7 +98,27 @@ ASSUMPTIONS = [
 
 
 # ------------------------------------------------------------------ generation
-def gen_chain(rng, n, clean_p=0.78):
+def near_arange_index(rng, n):
+    """a list / tensor whose first entry is its minimum, whose last is its maximum and whose span equals its length --
+    but which is NOT an arange: interior entries shuffled or duplicated (a 'contiguous run' fast path must not take it)"""
+    L = rng.randint(3, max(3, n))
+    if n < 3:
+        return {"t": rng.pick(["list", "tensor"]), "l": [0, 0, n - 1][:max(n, 1) + 1] if n else []}
+    a = rng.randint(0, n - L)
+    run = list(range(a, a + L))
+    mid = run[1:-1]
+    if len(mid) >= 2 and rng.chance(0.6):
+        i, j = rng.sample(range(len(mid)), 2)
+        mid[i], mid[j] = mid[j], mid[i]
+    else:
+        mid[rng.randint(0, len(mid) - 1)] = rng.pick(run)
+    out = [run[0]] + mid + [run[-1]]
+    if rng.chance(0.3):
+        out = [x - n for x in out]
+    return {"t": rng.pick(["list", "tensor"]), "l": out, "near_arange": True}
+
+
+def gen_chain(rng, n, clean_p=0.78, explicit=False):
     chain = []
     L = rng.wpick([(4, 1), (4, 2), (2, 3), (1, 4)])
     cur = n
@@ -94,6 +139,13 @@ def gen_chain(rng, n, clean_p=0.78):
                 ix = {"t": "range", "a": a, "b": rng.randint(-cur - 1, a - 1), "s": rng.pick([-1, -1, -2])}
         if rng.chance(0.12):
             ix = boundary_index(rng, cur)
+        if rng.chance(0.06) and cur >= 3:
+            ix = near_arange_index(rng, cur)
+        if explicit and rng.chance(0.3):
+            # stepped slices on frames with an explicit row count: spans divisible and not divisible by the step
+            a = rng.pick([None, 0, rng.randint(0, max(cur, 1)), -rng.randint(1, cur + 1)])
+            b = rng.pick([None, cur, cur + 1, rng.randint(0, cur + 1), -rng.randint(1, cur + 1)])
+            ix = {"t": "slice", "a": a, "b": b, "s": rng.pick([2, 3]), "stepped_explicit": True}
         chain.append(ix)
         try:
             cur = len(R.ref_positions(ix, cur))
@@ -142,7 +194,7 @@ def gen_case(rng, tier):
     if fr["n"] > 0 and rng.chance(0.12):
         case = gen_shared_index_case(rng, fr)
     else:
-        case = {"frame": fr, "chain": gen_chain(rng, fr["n"])}
+        case = {"frame": fr, "chain": gen_chain(rng, fr["n"], explicit=fr["num_rows"] is not None)}
     case["via"] = rng.wpick([(5, None), (2, "copy"), (1, "to"), (1, "cpu"), (1, "to_kw")])
     case["call"] = rng.wpick([(4, "[]"), (1, "dunder")])
     if not case.get("shared_index"):
@@ -502,7 +554,7 @@ def stats(cases, obss):
          "index_kinds": {}, "chain_len": {}, "error_cases": 0, "through_empty": 0, "overshooting_slices": 0,
          "shared_index_cases": 0, "second_frame_cases": 0, "ctor_forms": {}, "via": {}, "call": {},
          "index_repr": {"int32": 0, "strided": 0, "int64-contiguous": 0}, "wrapping_ranges": 0,
-         "boundary_indices": 0, "single_true_masks": 0, "one_row_frames_selected": 0, "single_column_stypes": 0}
+         "near_arange_indices": 0, "stepped_slices_explicit_num_rows": 0, "boundary_indices": 0, "single_true_masks": 0, "one_row_frames_selected": 0, "single_column_stypes": 0}
     for c, o in zip(cases, obss):
         if c is None or not isinstance(o, dict):
             continue
@@ -519,6 +571,8 @@ def stats(cases, obss):
         d["single_column_stypes"] += any(len(f["names"]) == 1 for f in fr["feats"])
         for ix in c["chain"]:
             d["boundary_indices"] += bool(ix.get("boundary"))
+            d["near_arange_indices"] += bool(ix.get("near_arange"))
+            d["stepped_slices_explicit_num_rows"] += bool(ix.get("stepped_explicit"))
             d["single_true_masks"] += ix["t"] == "mask" and sum(ix["m"]) == 1
             if ix["t"] == "range":
                 ents = list(range(ix["a"], ix["b"], ix["s"]))
@@ -568,6 +622,8 @@ def sanity(cases, obss):
                     ("shared_index_cases", "no case reuses one index object"),
                     ("wrapping_ranges", "no range running from negative to non-negative entries"),
                     ("boundary_indices", "no index expression at a boundary of the row axis"),
+                    ("near_arange_indices", "no shuffled / duplicated index with the span of a contiguous run"),
+                    ("stepped_slices_explicit_num_rows", "no stepped slice on a frame with explicit num_rows"),
                     ("single_true_masks", "no mask with exactly one True"),
                     ("one_row_frames_selected", "no selection from a one-row frame"),
                     ("single_column_stypes", "no stype with a single column"),
